@@ -159,3 +159,29 @@ pub open spec fn extract_step(rs: Seq<Tok>, active_names: Seq<Tok>, all_names: S
         Some(h) => group(Delim::Brace, let_tuple(active_names, rs) + h.toks() + group(Delim::Paren, all_names)),
     }
 }
+
+// ---------------------------------------------------------------- C05/C13: the results transposer
+
+/// `x . m ( | x | body )`
+pub open spec fn bind_toks(x: Seq<Tok>, m: Seq<char>, body: Seq<Tok>) -> Seq<Tok> {
+    x + seq![Tok::Punct('.'), Tok::Ident(m)] + group(Delim::Paren, seq![Tok::Punct('|')] + x + seq![Tok::Punct('|')] + body)
+}
+
+/// `r_k.and_then(|r_k| r_{k+1}.and_then(|r_{k+1}| ... r_{n-1}.map(|r_{n-1}| ret)))`: branch k is examined before every
+/// later branch, so the failure that comes out is the one of the lowest-numbered failing branch, and `ret` (the tuple
+/// of ALL values) is reached only if every branch succeeded
+pub open spec fn transposer_toks<T: ToTokens>(vars: Seq<T>, ret: Seq<Tok>, k: int) -> Seq<Tok>
+    decreases vars.len() - k
+{
+    if k < 0 || k >= vars.len() { Seq::<Tok>::empty() }
+    else if k == vars.len() - 1 { bind_toks(vars[k].toks(), "map"@, ret) }
+    else { bind_toks(vars[k].toks(), "and_then"@, transposer_toks(vars, ret, k + 1)) }
+}
+
+/// one step of the reversed fold
+pub open spec fn transposer_step<T: ToTokens>(acc: Option<TokenStream>, var: T, ret: Seq<Tok>, r: Option<TokenStream>) -> bool {
+    r is Some && r->0@ == match acc {
+        None => bind_toks(var.toks(), "map"@, ret),
+        Some(a) => bind_toks(var.toks(), "and_then"@, a@),
+    }
+}
